@@ -60,6 +60,15 @@ def binding_cases():
         ("def f() do def inner = 1; inner end; f(); inner", ('error', "'ERROR'")),
         ("def x = 'outer'; def show() x; def caller() do def x = 'caller'; show() end; caller()", ('text', "'outer'")),
         ("def mk(n) fn() do n = n + 1; n end; def c1 = mk(0); def c2 = mk(10); [c1(), c1(), c2(), c1()]", ('text', "[1, 2, 11, 3]")),
+        # EVERY call gets its own scope, also a call of a function without parameters whose body is a single expression: a `def` in a block
+        # nested in that expression stays local, does not touch an outer variable of the same name, and is not shared between recursive calls
+        ("def x = 1; def f() if TRUE then do def x = 2; x end else 0; [f(), x]", ('text', "[2, 1]")),
+        ("def x = 1; def f = fn() if TRUE then do def x = 2; x end else 0; [f(), f(), x]", ('text', "[2, 2, 1]")),
+        ("def c = 0; def h() if c < 3 then do def mine = c; c = c + 1; h(); mine end else -1; [h(), c]", ('text', "[0, 3]")),
+        ("def f() [do def t = y * 2; t end for y in [1, 2]]; def t = 'outer'; [f(), t]", ('text', "[[2, 4], 'outer']")),
+        ("def o = <*m = fn(self) if TRUE then do def x = 5; x end else 0*>; def x = 1; [o->m(), x]", ('text', "[5, 1]")),
+        ("def mk() fn() if TRUE then do def k = 0; k = k + 1; k end else 0; def a = mk(); [a(), a(), a()]", ('text', "[1, 1, 1]")),
+        ("def x = 1; def f() do def x = 2; x end; [f(), x]", ('text', "[2, 1]")),
     ]
     return cases
 
